@@ -1555,11 +1555,11 @@ def rule_py_refill_scope(out):
 
 RULES = {
     "C02": [rule_json_kinds, rule_ndjson_sentinel, rule_union_dispatch],
-    "C03": [rule_link, rule_py_wire_table, rule_py_capacity, rule_py_no_alias],
+    "C03": [rule_link, rule_py_wire_table, rule_py_capacity, rule_py_no_alias, rule_py_stream_blocks],
     "C08": [rule_link],
     "C15": [rule_py_headers, rule_ndjson_key_order],
     "C16": [rule_py_eof, rule_py_refill_scope],
-    "C17": [rule_py_stream_blocks],
+    "C17": [rule_py_stream_blocks, rule_py_no_alias],
     "C04": [rule_py_headers, rule_py_write_order, rule_ndjson_key_order],
     "C01": [rule_py_wire_table, rule_py_stream_blocks, rule_py_write_order],
 }
